@@ -149,7 +149,7 @@ class Unit:
             elif kw == 'mustfail':
                 self._pending_mustfail = True
                 i += 1
-            elif kw in ('fn', 'item', 'implhdr', 'arm', 'guard', 'slice', 'macroarm'):
+            elif kw in ('fn', 'item', 'implhdr', 'arm', 'guard', 'slice', 'macroarm', 'sig', 'callslice'):
                 # collect block up to //@end (implhdr/guard are one-liners without block)
                 block = []
                 j = i + 1
@@ -290,6 +290,9 @@ class Unit:
             if k >= len(cls):
                 raise ExtractError('%s: fn %s has %d closures, contract refers to closure %d' % (where, name, len(cls), k))
             repl.append((cls[k]['start'] - b0, cls[k]['params_end'] - b0, '\n'.join(l for _, l in lines)))
+            if not cls[k]['braced']:
+                repl.append((cls[k]['body_start'] - b0, cls[k]['body_start'] - b0, '{ '))
+                repl.append((cls[k]['body_end'] - b0, cls[k]['body_end'] - b0, ' }'))
             self.rewrites.append(('R-closure annotate closure %d' % k, where, 1))
         for pos, lines in proofs:
             if pos == 'start':
@@ -304,15 +307,7 @@ class Unit:
                     raise ExtractError('%s: proof anchor /%s/ not found in fn %s' % (where, m.group(1), name))
                 off = body.rfind('\n', 0, hits[want].start()) + 1
                 ins.append((off, 'proof', lines))
-        # ---- emit
-        self.emit_repo(s, f['start'], f['open'], text=sig.rstrip('\n'), fn=fnkey)
-        for ln, l in spec:
-            lab = re.search(r'//:\s*(\S+)(?:\s+(\S+))?\s*$', l)
-            org = ('spec', base, ln, name, lab.group(1) if lab else None,
-                   lab.group(2).split(',') if lab and lab.group(2) else props)
-            self.lines.append(Line(l, org, fnkey))
-            if lab:
-                finfo['clauses'].append(lab.group(1))
+        sig_pending = sig
         # body with insertions: walk through body text
         events = sorted([(o, 0, k, l) for o, k, l in ins] + [(a, 1, b, t) for a, b, t in repl], key=lambda e: (e[0], e[1]))
         cur = 0
@@ -341,7 +336,19 @@ class Unit:
                 marks[mk] = (k, payload)
                 rendered += mk
         rendered = self.apply_rules(rendered, where)
-        rendered = self.apply_subs(rendered, subs, where)
+        # subs apply to signature + body jointly (the expected count is the total)
+        SEP = '/*@@SIGEND@@*/'
+        joint = self.apply_subs(sig_pending + SEP + rendered, subs, where)
+        sig_new, rendered = joint.split(SEP)
+        # ---- emit signature, spec header, then the body
+        self.emit_repo(s, f['start'], f['open'], text=sig_new.rstrip('\n'), fn=fnkey)
+        for ln, l in spec:
+            lab = re.search(r'//:\s*(\S+)(?:\s+(\S+))?\s*$', l)
+            org = ('spec', base, ln, name, lab.group(1) if lab else None,
+                   lab.group(2).split(',') if lab and lab.group(2) else props)
+            self.lines.append(Line(l, org, fnkey))
+            if lab:
+                finfo['clauses'].append(lab.group(1))
         # emit line by line; repo line numbers are approximate after insertions of text on
         # the same line, exact otherwise
         ln = s.line_of(f['open'])
@@ -400,6 +407,30 @@ class Unit:
         where = '%s:%d' % (file, s.line_of(a))
         text = self.apply_subs(self.apply_rules(s.text[a:b], where), self._simple_subs(block), where)
         self.emit_repo(s, a, b, text=text)
+
+    def _d_sig(self, rest, block, base, tline):
+        """the real signature of a function (no body): used to give a callee an assumed
+        contract that is keyed by the callee's own parameter NAMES"""
+        parts = [p.strip() for p in rest.split('|')]
+        file, container, name = parts[0], parts[1], parts[2]
+        ret = None
+        for p in parts[3:]:
+            if p.startswith('ret '):
+                ret = p[4:].strip()
+        s, f = self._locate_fn(file, container, name)
+        where = '%s:%d' % (file, s.line_of(f['kw']))
+        sig = self.apply_rules(s.text[f['start']:f['open']], where)
+        sig = self.apply_subs(sig, self._simple_subs(block), where)
+        if ret:
+            k = sig.rfind('->')
+            if k < 0:
+                raise ExtractError('%s: ret given but fn %s has no return type' % (where, name))
+            wm = re.search(r'\bwhere\b', sig[k:])
+            ty_end = k + wm.start() if wm else len(sig)
+            ty = sig[k + 2:ty_end].strip()
+            sig = sig[:k] + '-> (%s: %s)' % (ret, ty) + ('\n' + sig[ty_end:] if wm else '')
+        self.rewrites.append(('R-sig callee signature %s (contract keyed by parameter name)' % name, where, 1))
+        self.emit_repo(s, f['start'], f['open'], text=sig.rstrip(), fn=None)
 
     def _d_implhdr(self, rest, block, base, tline):
         file, header = [p.strip() for p in rest.split('|', 1)]
@@ -470,6 +501,166 @@ class Unit:
         seg = self.apply_subs(self.apply_rules(seg, where), self._simple_subs(block), where)
         self.rewrites.append(('R-slice statements %s..%s of %s' % (frm, to, fn), where, 1))
         self.emit_repo(s, start, end, text=seg, fn='slice')
+
+    # ---------------------------------------------------------------------
+    @staticmethod
+    def _split_top(text, masked):
+        """split at top-level commas (brackets and angle brackets respected)"""
+        parts = []
+        d = 0
+        cur = 0
+        i = 0
+        while i < len(text):
+            c = masked[i]
+            if c in '([{<':
+                d += 1
+            elif c in ')]}>':
+                if c == '>' and i > 0 and masked[i - 1] in '-=':
+                    pass
+                else:
+                    d -= 1
+            elif c == ',' and d == 0:
+                parts.append(text[cur:i])
+                cur = i + 1
+            i += 1
+        if masked[cur:].strip():
+            parts.append(text[cur:])
+        return [p.strip() for p in parts]
+
+    def _param_names(self, s, f):
+        """parameter names of fn f (dict from find_fn) in order"""
+        i = f['kw']
+        # skip generics
+        j = s.masked.find('(', i)
+        lt = s.masked.find('<', i)
+        if 0 <= lt < j:
+            d = 0
+            k = lt
+            while True:
+                if s.masked[k] == '<':
+                    d += 1
+                elif s.masked[k] == '>' and s.masked[k - 1] not in '-=':
+                    d -= 1
+                    if d == 0:
+                        break
+                k += 1
+            j = s.masked.find('(', k)
+        e = match_close(s.masked, j)
+        names = []
+        for p in self._split_top(s.text[j + 1:e], s.masked[j + 1:e]):
+            m = re.match(r'(?:mut\s+)?(&?\s*(?:mut\s+)?self|\w+)\s*(?::|$)', p)
+            if not m:
+                raise ExtractError('%s: cannot parse parameter %r' % (s.path, p))
+            names.append(m.group(1))
+        return names
+
+    def _d_callslice(self, rest, block, base, tline):
+        """R-slice: the recursion skeleton of a function = its depth guard(s) and every call to a
+        tracked callee with the arguments bound to the tracked parameters (by the callee's
+        real parameter names), in source order.  A statement nested in a branch/loop/closure
+        becomes conditional (`if vx_nondet()`).  Everything else is dropped."""
+        parts = [p.strip() for p in rest.split('|')]
+        file, container, name = parts[0], parts[1], parts[2]
+        s, f = self._locate_fn(file, container, name)
+        where = '%s:%d' % (file, s.line_of(f['kw']))
+        track = []
+        callees = {}
+        forward = []
+        guard_re = None
+        for ln, l in block:
+            st = l.strip()
+            if not st.startswith('//@'):
+                continue
+            h = st[3:].strip()
+            if h.startswith('track '):
+                track = [t.split(':')[0] for t in h[6:].split()]
+                ttype = dict((t.split(':') + ['usize'])[:2] for t in h[6:].split())
+            elif h.startswith('forward '):
+                forward = h[8:].split()
+            elif h.startswith('guard '):
+                guard_re = re.compile(h[6:].strip().strip('/'))
+            elif h.startswith('callee '):
+                m = re.match(r'callee\s+(\w+)\s*@\s*([^|]+)\|\s*([^=]+?)\s*=>\s*(.*)$', h)
+                if not m:
+                    raise ExtractError('%s:%d: bad callee line' % (base, ln))
+                cs, cf = self._locate_fn(m.group(2).strip(), m.group(3).strip(), m.group(1))
+                callees[m.group(1)] = dict(params=self._param_names(cs, cf), ghost=m.group(4).strip())
+            else:
+                raise ExtractError('%s:%d: unknown callslice line %s' % (base, ln, h))
+        lo, hi = f['open'] + 1, f['close']
+        body_m = s.masked[lo:hi]
+        # tracked parameters must be immutable in the real function
+        for t in track:
+            for m in re.finditer(r'\b%s\b\s*(=(?![=>])|\+=|-=)' % t, body_m):
+                raise ExtractError('%s: tracked parameter %s is assigned in %s; the slice would be unsound' % (where, t, name))
+            for m in re.finditer(r'\blet\s+(?:mut\s+)?%s\b' % t, body_m):
+                raise ExtractError('%s: tracked parameter %s is shadowed in %s' % (where, t, name))
+            for c in s.closures_in(lo, hi):
+                if re.search(r'\b%s\b' % t, s.masked[c['start']:c['params_end']]):
+                    raise ExtractError('%s: tracked parameter %s is shadowed by a closure parameter in %s' % (where, t, name))
+            # pattern bindings (match arms / if let / for) that rebind the name
+            for m in re.finditer(r'\b(?:Some|Ok|Err)\s*\(\s*(?:mut\s+|ref\s+)?%s\s*\)|\bfor\s+%s\s+in\b' % (t, t), body_m):
+                raise ExtractError('%s: tracked parameter %s is rebound by a pattern in %s' % (where, t, name))
+        events = []
+        if guard_re:
+            for m in guard_re.finditer(body_m):
+                k = lo + m.start()
+                o = s.masked.find('{', k)
+                c = match_close(s.masked, o)
+                # an `else` continuation would make the guard more than a guard
+                tail = s.masked[c + 1:c + 20].lstrip()
+                if tail.startswith('else'):
+                    raise ExtractError('%s: depth guard has an else branch' % where)
+                events.append((k, 'guard', (k, c + 1)))
+        for cname, info in callees.items():
+            for m in re.finditer(r'(?<![\w.:])%s\s*(?:::<[^>]*>)?\s*\(' % cname, body_m):
+                k = lo + m.start()
+                o = lo + m.end() - 1
+                c = match_close(s.masked, o)
+                args = self._split_top(s.text[o + 1:c], s.masked[o + 1:c])
+                args = [re.sub(r'//[^\n]*', '', a).strip() for a in args]
+                if len(args) != len(info['params']):
+                    raise ExtractError('%s: call to %s has %d args, signature has %d' % (where, cname, len(args), len(info['params'])))
+                events.append((k, 'call', (cname, dict(zip(info['params'], args)), c + 1)))
+        events.sort(key=lambda e: e[0])
+        self.rewrites.append(('R-slice recursion skeleton of %s: %d guard(s), %d call(s) kept, everything else dropped' % (
+            name, len([e for e in events if e[1] == 'guard']), len([e for e in events if e[1] == 'call'])), where, 1))
+        simple = re.compile(r'^(?:\w+|\d+|true|false|\w+\s*[+-]\s*\d+)$')
+        for k, kind, payload in events:
+            depth = s._depth(lo, k)
+            # parenthesis nesting (e.g. inside a closure argument) also counts as nested
+            pre = s.masked[lo:k]
+            nested = depth != 0 or pre.count('(') != pre.count(')')
+            ln = s.line_of(k)
+            org = ('repo', s.path, ln)
+            if kind == 'guard':
+                a, b = payload
+                text = s.text[a:b]
+                if nested:
+                    text = 'if vx_nondet() { ' + text + ' }'
+                for l in text.split('\n'):
+                    self.lines.append(Line(l, org, name + '_slice'))
+            else:
+                cname, amap, _ = payload
+                info = callees[cname]
+                kept = []
+                # arguments are bound by the callee's real parameter NAMES and handed to the
+                # slice in the canonical order of the track list; a tracked parameter the real
+                # callee does not have cannot be forwarded: it becomes an arbitrary value
+                for pn in track:
+                    if pn in amap:
+                        a = amap[pn]
+                        if not simple.match(a):
+                            raise ExtractError('%s: argument %r for %s.%s is outside the slice language' % (where, a, cname, pn))
+                        kept.append(a)
+                    else:
+                        kept.append('vx_any_%s()' % ttype[pn])
+                call = '%s_slice(%s%s)' % (cname, ', '.join(kept), (', ' + info['ghost']) if info['ghost'] else '')
+                self.lines.append(Line(('if vx_nondet() {' if nested else '{') + '   // ' + where.split(':')[0] + ':%d' % ln, org, name + '_slice'))
+                for pn in forward:
+                    self.lines.append(Line('    assert(%s == %s);' % (amap.get(pn, 'vx_any_%s()' % ttype[pn]), pn),
+                                           ('spec', base, tline, name, 'C18.%s-forwarded-to-%s' % (pn, cname), ['C18']), name + '_slice'))
+                self.lines.append(Line('    match %s { Err(e) => { if vx_nondet() { return Err(e); } } Ok(_) => {} } }' % call, org, name + '_slice'))
 
     def _d_macroarm(self, rest, block, base, tline):
         file, name, k = [p.strip() for p in rest.split('|')[:3]]
